@@ -859,6 +859,8 @@ def parse_args(
                 raise ValueError("fg specified twice")
             kwargs["bg"] = BG_COLORS[cast(str, arg[3:].lower())]
         elif arg.lower() in STYLES:
+            if kwargs.get(arg) is False:
+                raise ValueError(f"{arg} specified twice")
             kwargs[arg] = True
         else:
             raise ValueError(f"couldn't process arg: {args!r}")
